@@ -29,9 +29,7 @@ def pushNorm (defs : ListDefs) (v : Val) : Out Val :=
   | .list l =>
     match l.originNames with
     | none => .panic "ink_list.rs:get_origin_names"
-    | some names =>
-      if names.all (fun n => (defs.find n).isSome) then .ok (.list { l with origins := names })
-      else .panic "story_state.rs:push_evaluation_stack_list_definition"
+    | some names => .ok (.list { l with origins := names.filter (fun n => (defs.find n).isSome) })
   | v => .ok v
 
 def nativeVal (defs : ListDefs) (op : Op) (args : List Val) : Out Val :=
